@@ -17,11 +17,20 @@ RULE = ('random portfolios incl. periodic, coarse-frequency, scaled, structured 
         'plus (one more case per 8) portfolios of assets pinned by min_cap == max_cap with non-zero prices (fixed-rate / fixed-profile contracts, multi-commodity '
         'contracts, fixed-flow transports; balanced per node or not by a seed-drawn choice), alone or next to a flexible market contract active in part of the '
         'horizon, optimised in one go and split into intervals some of which have no free variable but non-zero cash flows; '
+        'plus (one more case per 6 each, mono and split, comp/c04gen.py) (a) portfolios on grids from hourly to weekly steps in which every order book discounts '
+        '(wacc 0.05 .. 1.0; the market of its node with the same, another or no wacc) and, in four of five books, has orders priced against the market of its node '
+        '(three in four of them attractive, i.e. executed; else the generic generator\'s orders), (b) scaled assets paying fixed costs for their size (profitable base or min_scale > 0) with a window of their own '
+        '(start after the first step, end before the last, off the grid points, ...) over a base with or without window, directly in the portfolio or wrapped '
+        '(at the external or an internal node) in a structured asset that has a window itself; '
         'non-trivial = solved scenario with >= 2 assets having non-zero cash flow; distinct by scenario hash')
-ASSUMPTIONS = ['oracle tolerance 1e-6 * max(1,|value|, sum|DCF|)']
+ASSUMPTIONS = ['oracle tolerance 1e-6 * max(1,|value|, sum|DCF| over the filled cells)',
+               'the sum of the DCF table is read as out["DCF"].sum().sum() (pandas skips empty cells); an empty / non-finite cell counts as a '
+               'violation by itself only inside the asset\'s own start/end']
 EXPLANATION = ('theorems about the model of Asset.dcf and the assembly; correspondence on captured problems; oracle: value vs DCF table vs -c_a.x_a with asset blocks taken from the sizes '
                'of the captured asset problems (independent of the mapping), on the result of every way the problem is built and solved: one go, robust, split, split re-optimised '
-               'with pinned intervals (fix_time_window), reordered; also for problems and intervals without any free variable')
+               'with pinned intervals (fix_time_window), reordered; also for problems and intervals without any free variable. The oracle (comp/c04gen.orc_value_accounting) '
+               'sums the table as a user does (empty cells skipped), so a cash flow that is blanked out of the table shows as value != sum and as column total != -c_a.x_a; '
+               'empty cells inside an asset\'s own window are reported as such')
 
 
 def scenarios(seed, tier):
@@ -50,9 +59,28 @@ def scenarios(seed, tier):
         s['mode'] = 'split'
         s['refix_seed'] = rnd2.getrandbits(30)
         yield 'fixed%d' % i, s
+    # order books that discount (wacc != 0) on horizons where discounting shows, orders priced against the node's market;
+    # scaled assets with fixed costs and a window of their own (directly in the portfolio / wrapped in a structured asset with a window)
+    from ..comp import c04gen as G
+    rnd3 = random.Random(seed * 7919 + 4 + 900001)
+    for i in range(n // 6):
+        s = G.gen_discounted_books(random.Random(rnd3.getrandbits(48)), tmax=12 if tier == 'quick' else 20)
+        s['mode'] = 'split' if i % 2 else 'mono'
+        if s['mode'] == 'split' and i % 4 == 1:
+            s['refix_seed'] = rnd3.getrandbits(30)
+        yield 'books%d' % i, s
+    for i in range(n // 6):
+        s = G.gen_scaled_windows(random.Random(rnd3.getrandbits(48)), tmax=12 if tier == 'quick' else 20)
+        s['mode'] = 'split' if i % 2 else 'mono'
+        if s['mode'] == 'split' and i % 4 == 1:
+            s['refix_seed'] = rnd3.getrandbits(30)
+        if i % 5 == 2:
+            s['robust_seed'] = rnd3.getrandbits(30)
+        yield 'scawin%d' % i, s
 
 
 def run_case(scn, drv):
+    from ..comp import c04gen as G
     if scn.get('_stream') == 'slp':
         from ..comp import slp as S
         r0 = S.run_case(scn['case'], drv)
@@ -61,6 +89,8 @@ def run_case(scn, drv):
                 'disagreements': [], 'violations': [v for v in r0['violations'] if v['oracle'] == 'slp_dcf_total']}
     r = {'evaluated': 1, 'nontrivial': False, 'features': [], 'disagreements': [], 'violations': []}
     feats = r['features']
+    if scn.get('stream'):
+        feats.append('stream:' + scn['stream'])
     for a in scn['assets']:
         feats.append('asset:' + a['type'])
         tgt = a.get('base', a).get('args', {})
@@ -82,10 +112,11 @@ def run_case(scn, drv):
     else:
         feats.append('solved')
         r['disagreements'] += pf.corr_readout(rec, drv, what=('dcf',))
-        r['violations'] += pf.orc_value_accounting(rec, 'mono', pf.asset_blocks(rec))
+        r['violations'] += G.orc_value_accounting(rec, 'mono', pf.asset_blocks(rec))
         nz = int((np.abs(rec['out']['DCF'].values).sum(axis=0) > 1e-9).sum())
         r['nontrivial'] = nz >= 2
         r['observed'] = {'value': float(rec['res'].value), 'assets_with_cash_flow': nz}
+        feats.extend(G.features(rec, pf.asset_blocks(rec)))
     if scn.get('robust_seed') is not None and not isinstance(rec.get('res'), str) and rec.get('out') is not None:
         # robust target over cost samples from perturbed prices (LP and MIP alike): reported value = sum of the DCF table
         try:
@@ -107,7 +138,7 @@ def run_case(scn, drv):
                 with impl.Quiet():
                     out_r = eao.io.extract_output(rec['portf'], op_r, res_r, rec['prices'])
                 feats.append('robust-mip' if pf.is_mip(op_r) else 'robust-lp')
-                r['violations'] += pf.orc_value_accounting({'out': out_r, 'res': res_r, 'op': op_r, 'portf': rec['portf']}, 'robust', pf.asset_blocks(rec))
+                r['violations'] += G.orc_value_accounting({'out': out_r, 'res': res_r, 'op': op_r, 'portf': rec['portf'], 'tg': rec['tg']}, 'robust', pf.asset_blocks(rec))
         except Exception as e:
             feats.append('robust-error:' + impl.err_class(e))
     if scn.get('mode') == 'split':
@@ -118,7 +149,8 @@ def run_case(scn, drv):
             feats.append('split')
             r['evaluated'] += 1
             if not isinstance(rs['res'], str):
-                r['violations'] += pf.orc_value_accounting(rs, 'split', pf.asset_blocks(rs))
+                r['violations'] += G.orc_value_accounting(rs, 'split', pf.asset_blocks(rs))
+                feats.extend('split:' + f for f in G.features(rs, pf.asset_blocks(rs)))
                 if any(len(o.l) and bool(np.all(o.l == o.u)) for o in rs['op'].ops):
                     feats.append('split-with-interval-without-free-variable')
         except Exception as e:
@@ -133,7 +165,7 @@ def run_case(scn, drv):
                     feats.extend(F.refix_features(rf))
                     r['evaluated'] += 1
                     if not isinstance(rf['res'], str):
-                        r['violations'] += pf.orc_value_accounting(rf, 'split-refixed', pf.asset_blocks(rf))
+                        r['violations'] += G.orc_value_accounting(rf, 'split-refixed', pf.asset_blocks(rf))
             except Exception as e:
                 feats.append('refix-error:' + impl.err_class(e))
     if scn.get('stream') == 'fixedpf':
@@ -152,7 +184,7 @@ def run_case(scn, drv):
             r['evaluated'] += 1
             feats.append('same-objects-reordered')
             if not isinstance(rec3['res'], str):
-                r['violations'] += pf.orc_value_accounting(rec3, 'reordered', pf.asset_blocks(rec3))
+                r['violations'] += G.orc_value_accounting(rec3, 'reordered', pf.asset_blocks(rec3))
         except Exception as e:
             feats.append('reorder-error:' + impl.err_class(e))
     return r
